@@ -4,7 +4,7 @@ Implementation of hooks and APIs for outputting log messages.
 
 import traceback
 import inspect
-from threading import Lock
+from threading import Lock, RLock
 from functools import wraps
 from io import IOBase
 import warnings
@@ -37,11 +37,32 @@ class BufferingDestination(object):
 
     def __init__(self):
         self.messages = []
+        self._forward = None
+        self._lock = RLock()
 
     def __call__(self, message):
-        self.messages.append(message)
-        while len(self.messages) > 1000:
-            self.messages.pop(0)
+        with self._lock:
+            if self._forward is None:
+                self.messages.append(message)
+                while len(self.messages) > 1000:
+                    self.messages.pop(0)
+                return
+        # Real destinations have been added in the meantime (a thread that
+        # started sending before that can still get here): pass it on.
+        self._forward(message)
+
+    def drain(self, forward):
+        """
+        Stop buffering: pass the buffered messages, in order, to C{forward},
+        and from now on pass any message that still arrives to C{forward} too.
+        Other threads that arrive meanwhile wait until the buffered messages
+        have been passed on.
+        """
+        with self._lock:
+            self._forward = forward
+            messages, self.messages = self.messages, []
+            for message in messages:
+                forward(message)
 
 
 class Destinations(object):
@@ -79,12 +100,18 @@ class Destinations(object):
 
         @param logger: The ``ILogger`` that wrote the message, if any.
         """
+        self._send_to(self._destinations, message, logger)
+
+    def _send_to(self, destinations, message, logger=None):
+        """
+        Deliver a message to the given destinations (see L{send}).
+        """
         message.update(self._globalFields)
         errors = []
         is_destination_error_message = (
             message.get("message_type", None) == DESTINATION_FAILURE
         )
-        for dest in self._destinations:
+        for dest in destinations:
             try:
                 dest(message)
             except Exception as e:
@@ -128,18 +155,21 @@ class Destinations(object):
         @param destinations: A list of callables that takes message
             dictionaries.
         """
-        buffered_messages = None
         if not self._any_added:
             # These are first set of messages added, so we need to clear
             # BufferingDestination:
             self._any_added = True
-            buffered_messages = self._destinations[0].messages
-            self._destinations = []
-        self._destinations.extend(destinations)
-        if buffered_messages:
-            # Re-deliver buffered messages:
-            for message in buffered_messages:
-                self.send(message)
+            buffering_destination = self._destinations[0]
+            new_destinations = list(destinations)
+            # Re-deliver buffered messages; a message that reaches the buffer
+            # meanwhile or later is passed on after them:
+            buffering_destination.drain(
+                lambda message: self._send_to(new_destinations, message)
+            )
+            # Only now let senders go to the new destinations directly:
+            self._destinations = new_destinations
+        else:
+            self._destinations.extend(destinations)
 
     def remove(self, destination):
         """
